@@ -5,6 +5,7 @@
 package c08
 
 import (
+	"bytes"
 	"encoding/json"
 	"fmt"
 	"io/ioutil"
@@ -16,6 +17,7 @@ import (
 	"github.com/modernizing/coca/pkg/application/analysis/javaapp"
 	"github.com/modernizing/coca/pkg/application/api"
 	"github.com/modernizing/coca/pkg/application/arch"
+	"github.com/modernizing/coca/pkg/application/arch/tequila"
 	"github.com/modernizing/coca/pkg/application/bs"
 	"github.com/modernizing/coca/pkg/application/call"
 	"github.com/modernizing/coca/pkg/application/concept"
@@ -28,7 +30,9 @@ import (
 	"github.com/modernizing/coca/pkg/infrastructure/ast/ast_go"
 	"github.com/modernizing/coca/pkg/infrastructure/string_helper"
 
+	"verifharness/adapter/c13"
 	"verifharness/adapter/common"
+	"verifharness/gen/archgen"
 	"verifharness/gen/gitgen"
 	"verifharness/gen/gopygen"
 	"verifharness/gen/javagen"
@@ -56,10 +60,10 @@ func reps(tier string) (inProc, procs int) {
 var Check = &run.Check{
 	ID:    "C08",
 	Level: "exploration",
-	Rule: "case kinds by index mod 8: 0-2,4 a generated Java project (3-12 methods per type, nullable methods, controllers, test classes) analysed N times in one process (identifier pass, full pass, and from the model: call graph, reverse call graph + map, " +
+	Rule: "case kinds by index mod 8: 0-2 a generated Java project (3-12 methods per type, nullable methods, controllers, test classes) analysed N times in one process (identifier pass, full pass, and from the model: call graph, reverse call graph + map, " +
 		"architecture graph + DOT, bad-smell list, test-smell list, API list, reference counts in listing order, evaluation summary, concept list); 3 the same through the CLI pipeline in M fresh processes " +
 		"(analysis, call, rcall, arch, bs, tbs, api -f -c, count, evaluate, concept: files under coca_reporter and stdout); 5 a synthesised git history through the five summaries N times; 6 a generated tree through `coca cloc --by-directory` and --top-file M times; " +
-		"7 a generated Go file through the Go front-end N times. Outputs are compared after canonicalisation: model up to function order, reports as collections, promised orders on untied keys. " +
+		"7 a generated Go file through the Go front-end N times; 4 a generated architecture model (many packages) through ArchApp.Analysis, both merges, DOT and the fan table N times. Outputs are compared after canonicalisation: model up to function order, reports as collections, promised orders on untied keys. " +
 		"non-trivial = the input has >= 3 rows in some report / >= 3 functions in some type; distinct = hash of the input shape. The monitor also counts how many distinct function orders it saw (evidence that different map schedules were sampled).",
 	Assumptions: []string{
 		"order among tied sort keys, order of unordered collections and the order of functions inside a type are free",
@@ -249,8 +253,10 @@ func firstDiff(a, b string) string {
 
 func runCase(c *run.Ctx, o *run.Outcome) {
 	switch c.Index % 8 {
-	case 0, 1, 2, 4:
+	case 0, 1, 2:
 		javaInProcess(c, o)
+	case 4:
+		archCase(c, o)
 	case 3:
 		javaCLI(c, o)
 	case 5:
@@ -386,6 +392,16 @@ func javaInProcess(c *run.Ctx, o *run.Outcome) {
 			sort.Strings(rels)
 			ob["architecture nodes+relations"] = strings.Join(nodes, ",") + " | " + strings.Join(rels, ",")
 			ob["architecture dot"] = archDotCanon(g.ToMapDot(func(string) bool { return true }).String())
+			// fan table (fan-in + fan-out per merged package): rows as a collection, order on untied totals
+			var fanRows, fanKeys, fanIDs []string
+			for _, f := range g.SortedByFan(tequila.MergeHeaderFunc) {
+				fanRows = append(fanRows, fmt.Sprintf("%s in=%d out=%d", f.Name, f.FanIn, f.FanOut))
+				fanKeys = append(fanKeys, fmt.Sprint(f.FanIn+f.FanOut))
+				fanIDs = append(fanIDs, f.Name)
+			}
+			sort.Strings(fanRows)
+			ob["architecture fan table rows"] = strings.Join(fanRows, ",")
+			ob["architecture fan table order (untied totals)"] = untied(fanKeys, fanIDs)
 			bsApp := bs.NewBadSmellApp()
 			ob["bad-smell list"] = canon(withoutProjectLevel(toGeneric(bsApp.IdentifyBadSmell(bsApp.AnalysisPath(dir), nil))), listUnordered, "", 0)
 			apis := new(api.JavaApiApp).AnalysisPath(dir, full, identMap, map[string]string{})
@@ -615,6 +631,61 @@ func apiSizeOrder(stdout string) string {
 	return untied(keys, ids)
 }
 
+// ---- architecture models (many packages: merge, fan table)
+
+func archCase(c *run.Ctx, o *run.Outcome) {
+	m := archgen.Generate(c.Rng.Fork(), archgen.Opts{MaxTypes: 30, MinPkgDepth: 2})
+	deps, idmap, _ := c13.ToCoca(m)
+	n, _ := reps(c.Tier)
+	o.Count("arch_model_cases", 1)
+	o.Shape = run.ShapeHash("arch", len(m.Types))
+	o.NonTrivial = len(m.Types) >= 6
+	var runs []observation
+	for i := 0; i < n; i++ {
+		ob := observation{}
+		panicked, val, site := run.Guard(func() {
+			g := arch.NewArchApp().Analysis(deps, idmap)
+			for _, merge := range []struct {
+				name string
+				f    func(string) string
+			}{{"header", tequila.MergeHeaderFunc}, {"package", tequila.MergePackageFunc}} {
+				mg := g.MergeHeaderFile(merge.f)
+				var nodes, rels []string
+				for k := range mg.NodeList {
+					nodes = append(nodes, k)
+				}
+				for _, rel := range mg.RelationList {
+					rels = append(rels, rel.From+" -> "+rel.To)
+				}
+				sort.Strings(nodes)
+				sort.Strings(rels)
+				ob["merged by "+merge.name+": nodes+relations"] = strings.Join(nodes, ",") + " | " + strings.Join(rels, ",")
+				ob["merged by "+merge.name+": dot"] = archDotCanon(mg.ToMapDot(func(string) bool { return true }).String())
+				var fanRows, fanKeys, fanIDs []string
+				for _, f := range g.SortedByFan(merge.f) {
+					fanRows = append(fanRows, fmt.Sprintf("%s in=%d out=%d", f.Name, f.FanIn, f.FanOut))
+					fanKeys = append(fanKeys, fmt.Sprint(f.FanIn+f.FanOut))
+					fanIDs = append(fanIDs, f.Name)
+				}
+				sort.Strings(fanRows)
+				ob["fan table by "+merge.name+": rows"] = strings.Join(fanRows, ",")
+				ob["fan table by "+merge.name+": order (untied totals)"] = untied(fanKeys, fanIDs)
+			}
+			ob["type graph dot"] = archDotCanon(g.ToMapDot(func(string) bool { return true }).String())
+		})
+		if panicked {
+			o.SetInconclusive("architecture analysis panicked @" + site + ": " + val + " (C13's business)")
+			return
+		}
+		runs = append(runs, ob)
+	}
+	o.Count("executions", n)
+	compare(o, "in-process repetition", runs)
+	if c.Index < 64 {
+		o.Sample = map[string]interface{}{"kind": "architecture model", "types": len(m.Types), "repetitions": n, "reports": keysOf(runs[0])}
+	}
+}
+
 // ---- git summaries
 
 func gitCase(c *run.Ctx, o *run.Outcome) {
@@ -667,6 +738,12 @@ func gitCase(c *run.Ctx, o *run.Outcome) {
 			ob["top authors order (untied commit counts)"] = untied(keys, ids)
 			ob["basic summary"] = canon(toGeneric(cocagit.BasicSummary(cp)), map[string]bool{}, "", 1)
 			ob["changelog map"] = canon(toGeneric(cocagit.BuildChangeMap(cp)), map[string]bool{}, "", 1)
+			// the printed changelog summary (`coca git -m`): sections as a collection, rows inside a section as printed
+			var buf bytes.Buffer
+			cocagit.ShowChangeLogSummary(cp, &buf)
+			secs := strings.Split(buf.String(), "=====================\n")
+			sort.Strings(secs)
+			ob["changelog summary sections"] = strings.Join(secs, "|")
 		})
 		if panicked {
 			o.SetInconclusive("git summaries panicked @" + site + ": " + val)
